@@ -43,6 +43,26 @@ def run(ctx):
                 {"c": 1, "op": "send", "reqs": [R("GET", tok("key", "k1")), R("SELECT", tok("int", n=1))]},
                 {"c": 0, "op": "send", "reqs": [R("SET", tok("key", "k2"), tok("str", "v1")), R("SELECT", tok("int", n=2)), R("GET", tok("key", "k1"))]},
                 {"c": 1, "op": "send", "reqs": [R("GET", tok("key", "k2"))]}]})
+        # Stop with connections open, Start again: the connections of the new run start from the defaults and are as separate
+        # from each other as any (whatever the server recycles from the connections that Stop closed)
+        for nold in (1, 2, 3):
+            steps = [{"c": c, "op": "send", "reqs": [R("SELECT", tok("int", n=c + 3)), R("SET", tok("key", "k:ud=a"), tok("str", "v1"))]} for c in range(nold)]
+            steps += [{"c": 0, "op": "stop"}, {"c": 0, "op": "start"}]
+            a, b, c3 = nold, nold + 1, nold + 2
+            steps += [{"c": a, "op": "send", "reqs": [R("GET", tok("key", "k1")), R("SELECT", tok("int", n=2))]},
+                      {"c": b, "op": "send", "reqs": [R("GET", tok("key", "k1")), R("SET", tok("key", "k:ud=b"), tok("str", "v1"))]},
+                      {"c": c3, "op": "send", "reqs": [R("GET", tok("key", "k2"))]},
+                      {"c": a, "op": "send", "reqs": [R("GET", tok("key", "k2"))]},
+                      {"c": b, "op": "send", "reqs": [R("SELECT", tok("int", n=1)), R("GET", tok("key", "k2"))]},
+                      {"c": c3, "op": "send", "reqs": [R("GET", tok("key", "k1"))]},
+                      {"c": a, "op": "send", "reqs": [R("GET", tok("key", "k1"))]}]
+            for rp in ("", "pw:exact"):
+                st2 = [dict(x) for x in steps]
+                if rp:
+                    for x in st2:
+                        if x["op"] == "send":
+                            x["reqs"] = ([R("AUTH", tok("str", "pw:exact"))] if x["c"] != c3 else []) + x["reqs"]
+                scenarios.append({"requirepass": rp, "handler": "rec", "tracer": False, "nconns": nold + 3, "steps": st2})
         for how in ("fullclose", "halfclose"):
             for closefail in (False, True):
                 scenarios.append({"requirepass": "", "handler": "rec", "tracer": False, "nconns": 3, "closefail": closefail, "steps": [
